@@ -3,11 +3,12 @@ CONSTANTS
   NC = 4
   NU = 2
   MaxConn = 5
-  MaxRefuse = 3
-  MaxFeed = 2
-  MaxEof = 3
+  MaxRefuse = 2
+  MaxFeed = 1
+  MaxEof = 2
   SlowSet = {"C", "D", "X"}
   CfgWrite = TRUE
+  NCl = 1
 INVARIANT MonitorQuiet
 INVARIANT OneReceivePath
 INVARIANT LockDiscipline
